@@ -364,9 +364,18 @@ pub fn n_histories(maxlen: u32) -> u64 {
     (0..=maxlen).map(|l| NOPS.pow(l)).sum()
 }
 
+/// indices from KIT_BASE on: the same histories, started from a model that already holds a small library (material,
+/// wall construction, glazing, frame, window construction) instead of from the empty model
+pub const KIT_BASE: u64 = 1 << 40;
+
 pub fn history_model(idx: u64) -> (Model, Vec<usize>) {
-    let ops = decode_history(idx);
+    let kit = idx >= KIT_BASE;
+    let ops = decode_history(if kit { idx - KIT_BASE } else { idx });
     let mut m = Model { meta: meta(zone("D3")), ..Default::default() };
+    if kit {
+        std_cons(&mut m);
+        std_wincons(&mut m);
+    }
     for (k, op) in ops.iter().enumerate() {
         let n = format!("{}", k);
         let last_space = m.spaces.last().map(|s| s.id);
@@ -529,16 +538,18 @@ pub fn run(ctx: &Ctx) -> i32 {
     // (c) editor histories
     let maxlen = ctx.tier.pick(4, 5);
     let nh = n_histories(maxlen);
-    let idxs: Vec<u64> = (0..nh).collect();
+    let mut idxs: Vec<u64> = (0..nh).collect();
+    let nh_kit = n_histories(maxlen - 1);
+    idxs.extend((0..nh_kit).map(|i| KIT_BASE + i));
     let states = Mutex::new(HashSet::<u64>::new());
     sup::supervise(&format!("c14c-{}", ctx.tier.name()), &idxs, timeout, &|idx, v| {
-        let ops = decode_history(idx);
+        let ops = decode_history(if idx >= KIT_BASE { idx - KIT_BASE } else { idx });
         if let Some(s) = v["sig"].as_u64() {
             states.lock().unwrap().insert(s);
         }
-        handle(ctx, &tally, &|| json!({"part": "editor-history", "ops": ops, "index": idx, "model": serde_json::to_value(history_model(idx).0).unwrap()}), &format!("history{:?}", ops), &v)
+        handle(ctx, &tally, &|| json!({"part": "editor-history", "ops": ops, "from_library_state": idx >= KIT_BASE, "index": idx, "model": serde_json::to_value(history_model(idx).0).unwrap()}), &format!("history{:?}", ops), &v)
     });
-    ctx.note("editor_histories", json!({"max_len": maxlen, "histories": nh, "ops": NOPS, "distinct_result_signatures": states.lock().unwrap().len()}));
+    ctx.note("editor_histories", json!({"max_len": maxlen, "histories": nh, "histories_from_library_state": nh_kit, "ops": NOPS, "distinct_result_signatures": states.lock().unwrap().len()}));
     ctx.sample(json!({"part": "editor-history", "ops": decode_history(nh / 2)}));
     let t = tally.lock().unwrap();
     ctx.note("tally", json!({"documents_that_load": t.loads, "do_not_load": t.noload, "returned": t.ok, "sane_closed_checked_for_finiteness": t.sane}));
@@ -546,7 +557,7 @@ pub fn run(ctx: &Ctx) -> i32 {
     ctx.outcome(&"noload");
     ctx.finish(
         "fault_enumeration",
-        &format!("(a) every single JSON-tree edit {{delete key, delete array item, empty/duplicate-last/truncate array, id -> nil / next other id of the document / fresh id, number -> 0, number -> -number}} of the bases (quick: generated tiny + micro models and cubo.json; thorough: + the other 6 shipped models); (b) every ordered pair of such edits on the micro model (thorough: also on the tiny model); (c) every editor history of length <= {} over {} operations (add space / wall / dangling wall / ground floor / window / wallcons / material / wincons / glass+frame / bridge / shade / loads+schedules / n50+ventilation / interior wall); each resulting document that loads as a Model is run through energy_indicators() in a supervised worker process (20 s watchdog, 4 GiB, panic-site capture, post-panic sentinel on cubo.json); closed models with positive sizes must report only finite numbers and JSON that loads back; non-trivial = document loads as a model", maxlen, NOPS),
+        &format!("(a) every single JSON-tree edit {{delete key, delete array item, empty/duplicate-last/truncate array, id -> nil / next other id of the document / fresh id, number -> 0, number -> -number}} of the bases (quick: generated tiny + micro models and cubo.json; thorough: + the other 6 shipped models); (b) every ordered pair of such edits on the micro model (thorough: also on the tiny model); (c) every editor history of length <= {} from the empty model, and of one step less from a model that already holds a small library of constructions, over {} operations (add space / wall / dangling wall / ground floor / window / wallcons / material / wincons / glass+frame / bridge / shade / loads+schedules / n50+ventilation / interior wall); each resulting document that loads as a Model is run through energy_indicators() in a supervised worker process (20 s watchdog, 4 GiB, panic-site capture, post-panic sentinel on cubo.json); closed models with positive sizes must report only finite numbers and JSON that loads back; non-trivial = document loads as a model", maxlen, NOPS),
         true,
         json!({}),
     )
